@@ -65,9 +65,9 @@ claim("C17", "other",
       "One open known finding (Sinclair joystick 2 'down'); the row AND across matrices is decided under C07.",
       "DESIGN.md §3 C17")
 claim("C18", "other",
-      "evaluated statics/consts (envelope function table, reload table, DAC tables) composed with extracted summaries of the segment functions and compared with a data-sheet generator; register decode and period clamps by term equivalence; pan table by constant propagation; forward interval analysis (f64) of the resampler's phase accumulator",
-      "All 16 envelope shapes (3 periods), DAC monotonicity/range, 7 pan triples, decode of R0-R13 and ignoring of 14/15, 0-acts-as-1 clamps, mixer bit polarity, ZXAyChip select/read/write pairing. The resampler's phase stays in [0,1) at every interpolation use and after every step for all sample rates down to 8 kHz (necessary for bounded samples).",
-      "Not decided: frequencies, envelope period in seconds, filtered amplitudes, finiteness of floating-point output (numeric).",
+      "evaluated statics/consts (envelope function table, reload table, DAC tables) composed with extracted summaries of the segment functions and compared with a data-sheet generator; register decode and period clamps by term equivalence; pan table by constant propagation; per-tick summaries of the tone / noise / envelope generators and of the mixer (DAC index tabulated over every channel input); CFG pairing of generator ticks with unit phase decrements; forward interval analysis (f64) of the resampler's phase accumulator",
+      "All 16 envelope shapes (3 periods), DAC monotonicity/range, 7 pan triples, decode of R0-R13 and ignoring of 14/15, 0-acts-as-1 clamps, mixer bit polarity, ZXAyChip select/read/write pairing. A tone channel toggles every TP ticks, the noise register shifts every 2*NP ticks, the envelope steps every EP ticks, the mixer gates tone/noise per channel and selects DAC level 2*volume+1 or the envelope, and the generators are ticked at f_clk/8 whatever the sample rate (step = clock/(rate*8*D), one tick per unit of phase): hence f_clk/(16 TP), f_clk/(16 NP), 256 EP/f_clk per ramp. The resampler's phase stays in [0,1) at every interpolation use and after every step for all sample rates down to 8 kHz (necessary for bounded samples).",
+      "Not decided: filtered amplitudes, finiteness of floating-point output beyond the phase invariant (numeric).",
       "DESIGN.md §3 C18")
 claim("C19", "other",
       "guard/dominance of every audio-queue push by 'len < samples_per_frame' on complete path sets of ZXMixer::process/new_frame; constant propagation of FPS; mod-ref; constant beeper table; forward interval analysis (f64) of the AY resampler's phase accumulator",
